@@ -24,7 +24,7 @@ SHAPES = ((4, 4, 16), (3, 1, 8), (1, 5, 32))
 DM0, P0 = 30.0, 0.1
 # observation geometry of the current case: the default one, or a dyadic one (period 1 s, 64 s of data, 32 bins) in which period
 # drifts of whole and exactly half bins occur, so that round-half-even decisions are exercised with exact arithmetic
-_cfg = {"P0": P0, "tsamp": 1e-3, "nsamples": 100000, "nchans": 64}
+_cfg = {"P0": P0, "tsamp": 1e-3, "nsamples": 100000, "nchans": 64, "foff": -1.0}
 DYADIC = {"P0": 1.0, "tsamp": 2.0 ** -10, "nsamples": 65536}
 # a 5 ms pulsar folded for 600 s into 64 bins: a change of the period by one part in a million drifts the last sub-integration by 7.7 bins
 PPM = {"P0": 0.005, "tsamp": 1.0e-4, "nsamples": 6000000}
@@ -36,7 +36,7 @@ DYADIC_SHAPES = ((4, 1, 32), (8, 2, 32))
 
 
 def REQUIRED(tier):
-    return ["histories", "hook_checks", "rotation_checks", "law:repeat_noop", "law:return_restores", "law:history_independence", "ops:update_dm", "ops:update_period", "shape:single_subband", "shape:single_subint", "layout:F", "layout:transposed_view", "layout:strided_view", "dyadic_histories", "exact_half_bin_states", "ops:centre_copy_retuned", "nchans:64", "nchans:128", "ppm_histories", "overresolved_histories", "histories:warnings_as_errors", "cubes:with_empty_phase_bins"]
+    return ["histories", "hook_checks", "rotation_checks", "law:repeat_noop", "law:return_restores", "law:history_independence", "ops:update_dm", "ops:update_period", "shape:single_subband", "shape:single_subint", "layout:F", "layout:transposed_view", "layout:strided_view", "dyadic_histories", "exact_half_bin_states", "ops:centre_copy_retuned", "nchans:64", "nchans:128", "ppm_histories", "overresolved_histories", "histories:warnings_as_errors", "cubes:with_empty_phase_bins", "band:ascending", "ops:update_dm_to_zero"]
 
 
 def EXHAUSTIVE(tier):
@@ -57,7 +57,7 @@ def cases(tier, seed):
                 yield {"kind": "lattice", "shape": si, "L": L, "prefix": [first, second]}
     rng = np.random.default_rng([seed, 1717])
     for k in range(100 if tier == "quick" else 2000):
-        yield {"kind": "random", "shape": int(rng.integers(0, 3)), "hseed": int(seed) * 100003 + k, "len": 50, "layout": LAYOUTS[k % 4], "nchans": [64, 128, 32][k % 3], "nan_bins": k % 5 == 1}
+        yield {"kind": "random", "shape": int(rng.integers(0, 3)), "hseed": int(seed) * 100003 + k, "len": 50, "layout": LAYOUTS[k % 4], "nchans": [64, 128, 32][k % 3], "nan_bins": k % 5 == 1, "ascending": k % 7 == 3}
     for si in range(len(PPM_SHAPES)):
         for first in range(9):
             yield {"kind": "ppm", "shape": si, "first": first}
@@ -77,7 +77,7 @@ def cases(tier, seed):
 def _hdr():
     from sigpyproc.header import Header
 
-    return Header(filename="x.fil", data_type="filterbank", nchans=_cfg["nchans"], foff=-1.0, fch1=400.0, nbits=8, tsamp=_cfg["tsamp"], tstart=58000.0, nsamples=_cfg["nsamples"])
+    return Header(filename="x.fil", data_type="filterbank", nchans=_cfg["nchans"], foff=_cfg.get("foff", -1.0), fch1=400.0, nbits=8, tsamp=_cfg["tsamp"], tstart=58000.0, nsamples=_cfg["nsamples"])
 
 
 def _eq(a, b):
@@ -188,6 +188,9 @@ def check_state(ctx, fd, base, shape, dm, period, visited, rec, step):
 
 
 def run_history(ctx, shape, ops, rec):
+    _cfg["foff"] = 1.0 if rec.get("ascending") else -1.0      # a band stored in ascending frequency order (e.g. after invert_freq)
+    if rec.get("ascending"):
+        ctx.count("band:ascending")
     _nan["on"] = bool(rec.get("nan_bins"))
     if _nan["on"]:
         ctx.count("cubes:with_empty_phase_bins")
@@ -378,6 +381,9 @@ def run_case(case, ctx):
     for _ in range(case["len"]):
         if rng.random() < 0.08:
             ops.append(("c", 0.0))
+        elif rng.random() < 0.04:
+            ops.append(("dm", 0.0))          # the zero-DM check: a target like any other
+            ctx.count("ops:update_dm_to_zero")
         elif rng.random() < 0.25 and ops and any(o[0] == "dm" for o in ops):
             # a small step from the DM installed last: the outer sub-band keeps its rounded shift while inner ones move by a bin
             last = [o[1] for o in ops if o[0] == "dm"][-1]
@@ -387,7 +393,7 @@ def run_case(case, ctx):
         else:
             ops.append(("p", float(P0 * (1 + rng.choice([0.0, float(rng.uniform(-1e-3, 1e-3)), 1e-4, -1e-4, float(rng.uniform(-2e-5, 2e-5)), float(rng.uniform(-5e-3, 5e-3))])))))
     rec = {"kind": "history", "shape": case["shape"], "ops": [list(o) for o in ops], "layout": _layout["cur"], "nchans": case.get("nchans", 64),
-           "strict_warnings": bool(case["hseed"] % 4 == 0), "nan_bins": bool(case.get("nan_bins"))}
+           "strict_warnings": bool(case["hseed"] % 4 == 0), "nan_bins": bool(case.get("nan_bins")), "ascending": bool(case.get("ascending"))}
     if rec["strict_warnings"]:
         ctx.count("histories:warnings_as_errors")
     if run_history(ctx, shape, ops, rec) and case["hseed"] % 25 == 0:
